@@ -10,4 +10,15 @@ theorem fact_commit_literals : Gen.applyMessageCommitArgs =
     ["Keeper.ApplyMessage:commit", "Keeper.ApplyTransaction:true", "Keeper.EstimateGas:false", "Keeper.EthCall:false",
      "Keeper.TraceTx:true", "Keeper.traceTx:commitMessage"] := by decide +kernel
 
+/-- how `EstimateGas` assigns the search bound and the remembered cap, in source order: caller gas / block limit /
+request cap, the recap, **then** `gasCap = hi`, then the search — `Query.searchBound`, `Query.estimateGas` -/
+theorem fact_estimate_gas_assigns :
+    Gen.estimateGasAssigns =
+      ["hi=uint64(*args.Gas)@if(args.Gas!=nil&&uint64(*args.Gas)>=ethparams.TxGas)",
+       "hi=uint64(params.Block.MaxGas)@else(args.Gas!=nil&&uint64(*args.Gas)>=ethparams.TxGas)@if(params.Block!=nil&&params.Block.MaxGas>0)",
+       "hi=req.GasCap@else(args.Gas!=nil&&uint64(*args.Gas)>=ethparams.TxGas)@else(params.Block!=nil&&params.Block.MaxGas>0)",
+       "hi=req.GasCap@if(req.GasCap!=0&&hi>req.GasCap)",
+       "gasCap=hi",
+       "hi,err=evmtypes.BinSearch(lo,hi,executable)"] := by decide +kernel
+
 end Evermint.Facts.Query
